@@ -6,7 +6,8 @@ From TLV Require Import Base.Shape Base.PyList Base.Tensor Base.BigSum Base.Ops 
   Proofs.TransformsProofs Proofs.TransformsProofsR Proofs.TransformsProofsTT Proofs.TransformsProofsTucker
   Proofs.TransformsProofsPf2 Proofs.TransformsProofsR2 Proofs.TransformsProofsFlip Proofs.TransformsProofsApi Proofs.TransformsProofsPermList
   Proofs.TransformsProofsTTM Proofs.TransformsProofsOrtho Proofs.TransformsProofsNegMode Proofs.TransformsProofsNegMode2 Proofs.TransformsProofsAlign Proofs.TransformsProofsLink
-  Model.TransformsApi Model.TransformsHeap Proofs.TransformsProofsValid Proofs.TransformsProofsHeap Proofs.TransformsProofsHeapTk.
+  Model.TransformsApi Model.TransformsHeap Proofs.TransformsProofsValid Proofs.TransformsProofsHeap Proofs.TransformsProofsHeapTk
+  Model.TransformsCplx Model.TransformsRT Proofs.TransformsProofsCplx Proofs.TransformsProofsRT Proofs.TransformsProofsBc Proofs.TransformsProofsLink2 Model.TransformsTkObj Proofs.TransformsProofsTkObj.
 From TLV Require Model.Factorized Proofs.FactorizedProofs Proofs.FactorizedProofs3 Proofs.FactorizedProofs5 Proofs.FactorizedProofs7 Proofs.FactorizedProofs9.
 Import ListNotations.
 
@@ -967,3 +968,196 @@ Proof.
     split; [eexists; split; vm_compute; reflexivity|]. eexists; split; vm_compute; reflexivity.
 Qed.
 
+
+(* ================================================================== round 7 *)
+(* --- complex-valued tensors: the complexification (pairs (re, im), Model/TransformsCplx.v) of a commutative ring is a commutative
+   ring, so every ring-regime theorem above holds for complex factors / cores (Gaussian integers = cx_ops Zops, executed) *)
+Theorem C04_complexification_ring : forall (F : Type) (Op : fops F), ring_theory (f0 Op) (f1 Op) (fadd Op) (fmul Op) (fsub Op) (fopp Op) (@eq F) ->
+  ring_theory (f0 (cx_ops Op)) (f1 (cx_ops Op)) (fadd (cx_ops Op)) (fmul (cx_ops Op)) (fsub (cx_ops Op)) (fopp (cx_ops Op)) (@eq (F * F)).
+Proof. exact @cx_ring. Qed.
+Print Assumptions C04_complexification_ring.
+
+(* pad_tt_rank on complex cores of a tensor train / tensor ring: same dense tensor, both parts *)
+Theorem C04_pad_tt_rank_tt_entry_complex : forall (F : Type) (Op : fops F), ring_theory (f0 Op) (f1 Op) (fadd Op) (fmul Op) (fsub Op) (fopp Op) (@eq F) ->
+  forall (cores : list (tensor (F * F))) (npad : nat) (pb : bool) (cores' : list (tensor (F * F))) (idx : list nat) (r : nat),
+  pad_tt_rank (cx_ops Op) cores npad pb = Ok cores' -> cores <> [] -> chain_ok r cores -> order3 cores -> inb (tt_shape cores) idx ->
+  0 < r -> 0 < last_r2 r cores ->
+  tt_entry (cx_ops Op) cores' idx = tt_entry (cx_ops Op) cores idx.
+Proof. exact @pad_tt_entry_cx. Qed.
+Print Assumptions C04_pad_tt_rank_tt_entry_complex.
+
+Theorem C04_pad_tt_rank_tr_entry_complex : forall (F : Type) (Op : fops F), ring_theory (f0 Op) (f1 Op) (fadd Op) (fmul Op) (fsub Op) (fopp Op) (@eq F) ->
+  forall (cores : list (tensor (F * F))) (npad : nat) (pb : bool) (cores' : list (tensor (F * F))) (idx : list nat) (r : nat),
+  pad_tt_rank (cx_ops Op) cores npad pb = Ok cores' -> cores <> [] -> chain_ok r cores -> order3 cores -> inb (tt_shape cores) idx ->
+  last_r2 r cores = r ->
+  tr_entry (cx_ops Op) cores' idx = tr_entry (cx_ops Op) cores idx.
+Proof. exact @pad_tr_entry_cx. Qed.
+Print Assumptions C04_pad_tt_rank_tr_entry_complex.
+
+(* the padding acts on each part separately (pr = fst: real parts, pr = snd: imaginary parts): the parts of the padded cores are the
+   padded parts -- in particular the imaginary part of a core is not dropped by the zero buffer it is written into *)
+Theorem C04_pad_tt_rank_parts : forall (F : Type) (Op : fops F) (pr : F * F -> F) (cores : list (tensor (F * F))) (npad : nat) (pb : bool),
+  pr (f0 Op, f0 Op) = f0 Op ->
+  pad_tt_rank Op (map (tmap pr) cores) npad pb =
+  match pad_tt_rank (cx_ops Op) cores npad pb with Ok c' => Ok (map (tmap pr) c') | Err => Err end.
+Proof. exact @pad_tt_rank_part. Qed.
+Print Assumptions C04_pad_tt_rank_parts.
+
+(* --- compress -> fit -> decompress over a WHOLE list of slices of any heights in any order (Model/TransformsRT.v): slices with at
+   most rank_limit rows pass through (loading None), the others are compressed; if the fitted PARAFAC2 tensor (w, A, B, C, Qs)
+   represents score i exactly, slice i of the decompressed tensor is slice i of the data -- for a compressed slice under the
+   hypotheses of C04_svd_compress_decompress_roundtrip (every singular value kept, SVD answer with its contract) *)
+Theorem C04_compress_decompress_list : forall (F : Type) (Op : fops F), ring_theory (f0 Op) (f1 Op) (fadd Op) (fmul Op) (fsub Op) (fopp Op) (@eq F) ->
+  forall (slices : list (mat F)) (thr : F) (mr : option nat) (tapes : list (mat F * list F * mat F)) (w : list F) (A B C : mat F) (Qs : list (mat F))
+    w' A' B' C' Ps' (i j k : nat),
+  length tapes = length slices ->
+  compress_then_decompress Op slices thr mr tapes w A B C Qs = Ok (w', [A'; B'; C'], Ps') ->
+  i < length slices -> i < length Qs ->
+  let X := nth i slices [] in
+  let usv := nth i tapes ([], [], []) in
+  let sl := compress_slice Op (rank_limit slices mr) thr X usv in
+  (forall t, t < length (fst sl) -> pf2_entry Op w A B C Qs i t k = mget Op (fst sl) t k) ->
+  match snd sl with
+  | None => j < length X
+  | Some _ =>
+      let '(U, s, Vh) := usv in
+      count_kept Op thr s = length s /\ length Vh = length s /\ rectb (length s) U = true /\
+      mget Op X j k = sumn Op (length s) (fun t => fmul Op (mget Op U j t) (fmul Op (vget Op s t) (mget Op Vh t k))) /\
+      length (nth i Qs []) = length (fst sl) /\ length B <= ncols (nth i Qs []) /\ j < length U /\ k < ncols (fst sl)
+  end ->
+  pf2_entry Op w' A' B' C' Ps' i j k = mget Op X j k.
+Proof. exact @compress_decompress_list. Qed.
+Print Assumptions C04_compress_decompress_list.
+
+(* round 7 non-vacuity: a Gaussian-integer tensor ring whose imaginary parts matter (its dense tensor differs from that of its real
+   parts), padded: same dense tensor, the parts of the padded cores are the padded parts; a list of one short slice (passed
+   through) followed by one tall slice (compressed), fitted exactly: the decompressed tensor has the original slices *)
+Example C04_round7_nonvacuous :
+  let G1 := mk [2; 1; 2] [(1, 1); (0, 2); (0, -1); (2, 0)]%Z in let G2 := mk [2; 2; 2] [(0, 1); (1, 0); (1, 1); (0, 0); (2, 0); (0, -1); (1, 0); (0, 1)]%Z in
+  (exists c', pad_tt_rank Gops [G1; G2] 2 true = Ok c' /\ map (@shape _) c' = [[4; 1; 4]; [4; 2; 4]] /\
+     tr_to_tensor Gops c' = tr_to_tensor Gops [G1; G2] /\
+     pad_tt_rank Zops (map (tmap snd) [G1; G2]) 2 true = Ok (map (tmap snd) c')) /\
+  chain_ok 2 [G1; G2] /\ order3 [G1; G2] /\ last_r2 2 [G1; G2] = 2 /\
+  tr_to_tensor Gops (map (tmap (cx_re Zops)) [G1; G2]) <> tr_to_tensor Gops [G1; G2] /\
+  (let slices := [[[2]]; [[3]; [4]]]%Z in let tapes := [([], [], []); ([[3]; [4]], [1], [[1]])]%Z in
+   compressed_flags Zops slices 0%Z None tapes = [false; true] /\
+   exists Ps', compress_then_decompress Zops slices 0%Z None tapes [1]%Z [[2]; [1]]%Z [[1]]%Z [[1]]%Z [[[1]]; [[1]]]%Z = Ok ([1]%Z, [[[2]; [1]]; [[1]]; [[1]]]%Z, Ps') /\
+     map (pf2_slice Zops [1]%Z [[2]; [1]]%Z [[1]]%Z [[1]]%Z Ps') [0; 1] = slices).
+Proof.
+  cbv zeta. split; [eexists; split; [vm_compute; reflexivity|]; repeat split; vm_compute; reflexivity|].
+  split; [repeat split; vm_compute; reflexivity|]. split; [repeat constructor|]. split; [reflexivity|].
+  split; [vm_compute; discriminate|]. split; [vm_compute; reflexivity|].
+  eexists. split; vm_compute; reflexivity.
+Qed.
+
+(* --- tucker_normalize, whole loop: on valid operands (one scale vector per core mode, of that mode's size -- the column norms of
+   the factors of a valid Tucker tensor) the NumPy-broadcasting model tucker_normalize_bc IS the plain model: same verdict, same
+   object.  (Round 6 had the single step C04_tucker_bc_step and a per-run comparison.) *)
+Theorem C04_tucker_normalize_bc_valid : forall (F : Type) (Op : fops F), ring_theory (f0 Op) (f1 Op) (fadd Op) (fmul Op) (fsub Op) (fopp Op) (@eq F) ->
+  forall (tape : list (list F)) (core : tensor F) (fs : list (mat F)),
+  wfb core = true -> length tape = length (shape core) -> length fs = length tape ->
+  (forall k, k < length tape -> length (nth k tape []) = nth k (shape core) 0) ->
+  tucker_normalize_bc Op tape core fs = tucker_normalize_api Op tape core fs.
+Proof. exact @tucker_normalize_bc_valid. Qed.
+Print Assumptions C04_tucker_normalize_bc_valid.
+
+(* --- PARAFAC2 link without the verdict hypothesis: C04's validator model with the exact entry test accepts  ==>  C03's model of
+   _validate_parafac2_tensor accepts the encoded operand, with the slice shapes and rank C04's constructor caches *)
+Theorem C04_link_pf2_validator : forall (F : Type) (Op : fops F) (w : list F) (A B C : mat F) (Ps : list (mat F)),
+  pf2_validb Op (feqb Op) (Some w) [A; B; C] Ps = true -> length B = length w ->
+  Factorized.validate_parafac2 Op (Some (of_vec Op w)) [of_rows Op (length w) A; of_rows Op (length w) B; of_rows Op (length w) C]
+                               (map (of_rows Op (length B)) Ps) = Ok (pf2_shape [A; B; C] Ps, length w).
+Proof. exact @validate_parafac2_of_validb. Qed.
+Print Assumptions C04_link_pf2_validator.
+
+Theorem C04_link_pf2_to_slice_valid : forall (F : Type) (Op : fops F), ring_theory (f0 Op) (f1 Op) (fadd Op) (fmul Op) (fsub Op) (fopp Op) (@eq F) ->
+  forall (w : list F) (A B C : mat F) (Ps : list (mat F)) i,
+  pf2_validb Op (feqb Op) (Some w) [A; B; C] Ps = true -> length B = length w -> i < length A ->
+  exists t, Factorized.parafac2_to_slice Op (Some (of_vec Op w)) [of_rows Op (length w) A; of_rows Op (length w) B; of_rows Op (length w) C]
+                                         (map (of_rows Op (length B)) Ps) i = Ok t /\
+    shape t = [length (nth i Ps []); length C] /\
+    forall j k, j < length (nth i Ps []) -> k < length C -> Factorized.get2 Op t j k = pf2_entry Op w A B C Ps i j k.
+Proof. exact @pf2_to_slice_link_valid. Qed.
+Print Assumptions C04_link_pf2_to_slice_valid.
+
+Example C04_round7_links_nonvacuous :
+  (let w := [1; 2]%Z in let A := [[1; 2]]%Z in let B := [[1; 0]; [0; 1]]%Z in let C := [[3; 1]; [0; 2]]%Z in let P := [[0; 1]; [-1; 0]; [0; 0]]%Z in
+   pf2_validb Zops (feqb Zops) (Some w) [A; B; C] [P] = true /\ length B = length w) /\
+  (let core := mk [2; 2] [1; 2; 3; 4]%Z in let fs := [[[3; 0]; [4; 1]]; [[1; 1]]]%Z in let tape := [[5; 1]; [1; 1]]%Z in
+   wfb core = true /\ (forall k, k < length tape -> length (nth k tape []) = nth k (shape core) 0) /\
+   exists o, tucker_normalize_bc Zops tape core fs = Ok o /\ tko_core o = mk [2; 2] [5; 10; 3; 4]%Z /\ tko_shape o = [2; 1]).
+Proof.
+  cbv zeta. split; [split; vm_compute; reflexivity|]. split; [reflexivity|]. split.
+  - intros k Hk. simpl in Hk. destruct k as [|[|k]]; [reflexivity|reflexivity|lia].
+  - eexists. split; [vm_compute; reflexivity|]. split; vm_compute; reflexivity.
+Qed.
+
+(* --- TuckerTensor OBJECTS on the heap (Model/TransformsTkObj.v; tables of cores, arrays, factor lists + object cells caching shape / rank
+   and naming a core and a list).  obj.normalize() is in place: nothing the caller holds is overwritten (tables only grow, no other cell
+   changes), the object keeps its attributes, is re-bound to fresh locations and holds the answer of tucker_normalize; every other
+   object whose references point into the old tables holds what it held *)
+Theorem C04_tucker_normalize_method_heap : forall (F : Type) (Op : fops F) tape (th : theap) cells o th' cells',
+  o < length cells -> tcell_wf th (tcellr cells o) ->
+  tucker_normalize_method_h Op tape th cells o = Ok (th', cells') ->
+  exists r, tucker_normalize_bc Op tape (fst (tobj_read th cells o)) (snd (tobj_read th cells o)) = Ok r /\
+    (exists a, t_arr th' = t_arr th ++ a) /\ (exists c, t_core th' = t_core th ++ c) /\ (exists l, t_lst th' = t_lst th ++ l) /\
+    length cells' = length cells /\ (forall k, k <> o -> tcellr cells' k = tcellr cells k) /\
+    tc_shape (tcellr cells' o) = tc_shape (tcellr cells o) /\ tc_rank (tcellr cells' o) = tc_rank (tcellr cells o) /\
+    length (t_core th) <= tc_core (tcellr cells' o) /\ length (t_lst th) <= tc_fs (tcellr cells' o) /\
+    tobj_read th' cells' o = (tko_core r, tko_fs r) /\
+    (forall k, k <> o -> tcell_wf th (tcellr cells k) -> tobj_read th' cells' k = tobj_read th cells k).
+Proof. exact @tucker_normalize_method_spec. Qed.
+Print Assumptions C04_tucker_normalize_method_heap.
+
+(* a consistent object (valid Tucker tensor, attributes = what it holds) stays consistent, and holds tucker_normalize of what it held
+   (whose dense tensor / canonical form are C04_tucker_normalize_entry / _canonical) *)
+Theorem C04_tucker_normalize_method_consistent : forall (F : Type) (Op : fops F) tape (th : theap) cells o th' cells',
+  ring_theory (f0 Op) (f1 Op) (fadd Op) (fmul Op) (fsub Op) (fopp Op) (@eq F) ->
+  o < length cells -> tcell_wf th (tcellr cells o) -> tobj_consistent th cells o ->
+  Forall2 (fun sc n => length sc = n) tape (shape (fst (tobj_read th cells o))) ->
+  tucker_normalize_method_h Op tape th cells o = Ok (th', cells') ->
+  tobj_consistent th' cells' o /\
+  tobj_read th' cells' o = tucker_normalize Op tape (fst (tobj_read th cells o)) (snd (tobj_read th cells o)).
+Proof. exact @tucker_normalize_method_consistent. Qed.
+Print Assumptions C04_tucker_normalize_method_consistent.
+
+(* obj.mode_dot(x, mode, keep_dim, copy): a new consistent object holding the pure model's answer; no array / core overwritten;
+   copy=True: every existing object holds what it held; copy=False: the OPERAND object afterwards names its old core with the result's
+   (popped / updated) factor list *)
+Theorem C04_tucker_mode_dot_method_heap : forall (F : Type) (Op : fops F) (th : theap) cells o copy x mode kd th' cells' o',
+  tcell_wf th (tcellr cells o) ->
+  tucker_mode_dot_method_h Op th cells o copy x mode kd = Ok (th', cells', o') ->
+  o' = length cells /\ cells' = cells ++ [tcellr cells' o'] /\
+  tobj_consistent th' cells' o' /\
+  tucker_mode_dot Op (fst (tobj_read th cells o)) (snd (tobj_read th cells o)) x mode kd = Ok (tobj_read th' cells' o') /\
+  (exists a, t_arr th' = t_arr th ++ a) /\ (exists c, t_core th' = t_core th ++ c) /\
+  (copy = true -> forall k, k < length cells -> tcell_wf th (tcellr cells k) -> tobj_read th' cells' k = tobj_read th cells k) /\
+  (copy = false -> o < length cells -> tobj_read th' cells' o = (fst (tobj_read th cells o), snd (tobj_read th' cells' o'))).
+Proof. exact @tucker_mode_dot_method_spec. Qed.
+Print Assumptions C04_tucker_mode_dot_method_heap.
+
+(* the in-place contraction consumes its operand: afterwards the operand object is not a valid Tucker tensor (its old core has one mode
+   more than the popped list has factors), whatever its cached shape says *)
+Theorem C04_tucker_mode_dot_inplace_consumes_operand : forall (F : Type) (Op : fops F) (th : theap) cells o v mode th' cells' o',
+  o < length cells -> tcell_wf th (tcellr cells o) -> tobj_consistent th cells o ->
+  tucker_mode_dot_method_h Op th cells o false (OpVec v) mode false = Ok (th', cells', o') ->
+  ~ tobj_consistent th' cells' o.
+Proof. exact @tucker_mode_dot_inplace_consumes. Qed.
+Print Assumptions C04_tucker_mode_dot_inplace_consumes_operand.
+
+Example C04_round7_objects_nonvacuous :
+  let core := mk [2; 2; 2] [1; 2; 3; 4; 5; 6; 7; 8]%Z in let A := [[1; 0]; [2; 1]]%Z in let B := [[1; 1]]%Z in
+  let th := mk_theap [core] [A; B] [[0; 1; 0]] in
+  exists cells, tucker_new_h th [] 0 0 = Ok (cells, 0) /\ tcell_wf th (tcellr cells 0) /\ tobj_consistent th cells 0 /\
+    (exists th' cells' o', tucker_mode_dot_method_h Zops th cells 0 false (OpVec [1; 1]%Z) 0 false = Ok (th', cells', o') /\
+       tc_shape (tcellr cells' o') = [1; 2] /\ tc_shape (tcellr cells' 0) = [2; 1; 2] /\ length (snd (tobj_read th' cells' 0)) = 2) /\
+    (exists th' cells' o', tucker_mode_dot_method_h Zops th cells 0 true (OpVec [1; 1]%Z) 0 false = Ok (th', cells', o') /\
+       tobj_read th' cells' 0 = tobj_read th cells 0) /\
+    (exists th' cells', tucker_normalize_method_h Zops [[1; 1]; [1; 1]; [1; 1]]%Z th cells 0 = Ok (th', cells') /\
+       tc_core (tcellr cells' 0) = 1 /\ tlst th' (tc_fs (tcellr cells' 0)) = [2; 3; 4] /\ tobj_read th' cells' 0 = tobj_read th cells 0).
+Proof.
+  cbv zeta. eexists. split; [vm_compute; reflexivity|]. split.
+  - unfold tcell_wf, twf. simpl. repeat split; try lia; try (intros l [<-|[<-|[<-|[]]]]; lia).
+  - split; [vm_compute; auto|]. split; [do 3 eexists; split; [vm_compute; reflexivity|repeat split; vm_compute; reflexivity]|].
+    split; [do 3 eexists; split; vm_compute; reflexivity|]. do 2 eexists. split; [vm_compute; reflexivity|]. repeat split; vm_compute; reflexivity.
+Qed.
